@@ -228,13 +228,22 @@ func (e *Enc) header() (string, []string) {
 	// axioms may have pulled in more spec functions
 	ax, used = e.axiomsText()
 	specs = e.specDefs()
+	// component declarations first (they may request helper declarations such as root)
+	var cb strings.Builder
+	for _, n := range e.W.compOrder {
+		c := e.W.comps[n]
+		fmt.Fprintf(&cb, "(declare-const %s@0 %s)\n", c.Name, c.Sort)
+		for _, ax := range heapTypeAxioms(e.W, c, c.Name+"@0") {
+			cb.WriteString(ax + "\n")
+		}
+		for _, ax := range entryClosedAxioms(e.W, c) {
+			cb.WriteString(ax + "\n")
+		}
+	}
 	var b strings.Builder
 	b.WriteString("(set-option :produce-models true)\n")
 	b.WriteString(e.W.prelude())
-	for _, n := range e.W.compOrder {
-		c := e.W.comps[n]
-		fmt.Fprintf(&b, "(declare-const %s@0 %s)\n", c.Name, c.Sort)
-	}
+	b.WriteString(cb.String())
 	b.WriteString(specs)
 	b.WriteString("\n")
 	b.WriteString(ax)
@@ -546,4 +555,32 @@ func verifyLemma(P *Program, name string, opts *runOpts) *FnResult {
 		dischargeAll(res, opts)
 	}
 	return res
+}
+
+// entryClosedAxioms: at function entry every reference stored anywhere in the heap denotes
+// an object that already exists (is not above the allocation counter).
+func entryClosedAxioms(w *World, c *Comp) []string {
+	if c.ValTyp == nil {
+		return nil
+	}
+	n := c.Name + "@0"
+	var f func(v string) string
+	switch types.Unalias(c.ValTyp).Underlying().(type) {
+	case *types.Pointer:
+		w.needRoot()
+		f = func(v string) string { return "(<= (root " + v + ") alloc@0)" }
+	case *types.Map, *types.Chan:
+		f = func(v string) string { return "(<= " + v + " alloc@0)" }
+	case *types.Slice:
+		f = func(v string) string { return "(<= (sbase " + v + ") alloc@0)" }
+	default:
+		return nil
+	}
+	switch c.Kind {
+	case "field", "cell":
+		return []string{fmt.Sprintf("(assert (forall ((r Int)) (! %s :pattern ((select %s r)))))", f("(select "+n+" r)"), n)}
+	case "elems":
+		return []string{fmt.Sprintf("(assert (forall ((r Int) (i Int)) (! %s :pattern ((select (select %s r) i)))))", f("(select (select "+n+" r) i)"), n)}
+	}
+	return nil
 }
